@@ -31,6 +31,14 @@ type DiagnosticInfo struct {
 }
 
 func (d *DiagnosticInfo) Decode(b []byte) (int, error) {
+	return d.decode(b, 0)
+}
+
+// decode decodes a diagnostic info which is nested depth levels deep.
+func (d *DiagnosticInfo) decode(b []byte, depth int) (int, error) {
+	if depth > MaxNestingDepth {
+		return 0, StatusBadEncodingLimitsExceeded
+	}
 	buf := NewBuffer(b)
 	d.EncodingMask = buf.ReadByte()
 	if d.Has(DiagnosticInfoSymbolicID) {
@@ -53,7 +61,7 @@ func (d *DiagnosticInfo) Decode(b []byte) (int, error) {
 	}
 	if d.Has(DiagnosticInfoInnerDiagnosticInfo) {
 		d.InnerDiagnosticInfo = new(DiagnosticInfo)
-		buf.ReadStruct(d.InnerDiagnosticInfo)
+		buf.readNested(func(b []byte) (int, error) { return d.InnerDiagnosticInfo.decode(b, depth+1) })
 	}
 	return buf.Pos(), buf.Error()
 }
